@@ -126,13 +126,21 @@ def check_graph(lid, g, edges, hypo):
     ref = Ref(n, edges)
     expanded = 'real' in g
     if expanded:
-        w = wn.Wordnet(lexicon=f'{lid}:1 {lid}b:1' if g.get('split') else f'{lid}:1', expand=f'{lid}q:1')
+        if g.get('mode') == 'default':
+            # default mode: every installed lexicon is queried and every lexicon is an expand lexicon; the
+            # graphs of one database do not share ILIs, so the graph seen from <lid>'s synsets is the same
+            w = wn.Wordnet()
+        else:
+            w = wn.Wordnet(lexicon=f'{lid}:1 {lid}b:1' if g.get('split') else f'{lid}:1', expand=f'{lid}q:1')
         real = [i for i in range(n) if g['real'] >> i & 1]
         ss = {i: w.synset(f'{lid}-{i}') for i in real}
         _discover(ss, lid)
     elif 'ext' in g:
         both = g.get('scope') != 'base'
-        w = wn.Wordnet(lexicon=f'{lid}:1 {lid}x:1' if both else f'{lid}:1')
+        if g.get('mode') == 'default':      # default mode: a synset sees its lexicon's extension family
+            w = wn.Wordnet()
+        else:
+            w = wn.Wordnet(lexicon=f'{lid}:1 {lid}x:1' if both else f'{lid}:1')
         real = [i for i in range(n) if both or not g['ext']['nodes'] >> i & 1]
         ss = {i: w.synset(f'{lid}-{i}') for i in real}
     else:
@@ -180,7 +188,8 @@ def check_graph(lid, g, edges, hypo):
                     bad(f'{nm}:differs', f'{nm}({i},sim={sim}) = {v!r} expected {r(i, sim)}')
     # roots / leaves / taxonomy_depth per pos
     has_hypo = {i for (i, j) in hypo}
-    for p in sorted(set(pos) | {'n'}):
+    whole = g.get('mode') != 'default'      # a default-mode Wordnet holds every graph of the database
+    for p in sorted(set(pos) | {'n'}) if whole else ():
         grp = {p} | ({'a', 's'} if p in 'as' else set())
         members = [i for i in real if pos[i] in grp]
         v, ok = call('roots', tx.roots, w, pos=p)
@@ -205,7 +214,7 @@ def check_graph(lid, g, edges, hypo):
                 else:
                     bad('taxonomy_depth:differs', f'taxonomy_depth({p}) = {v!r} expected {exp}')
     # all-pos roots
-    v, ok = call('roots', tx.roots, w)
+    v, ok = call('roots', tx.roots, w) if whole else (None, False)
     if v is not None:
         got = sorted(_name(x, lid) for x in v) if ok else v
         exp = sorted(i for i in ref.roots() if i in real)
@@ -429,9 +438,22 @@ def space(tier, seed):
         for h in range(1 << (n * n)):
             for r in range(1, n + 1):
                 gs.append({'n': n, 'loops': True, 'h': h, 'real': (1 << r) - 1})
+    dags4 = set(dag_masks(4))
     for h in range(1 << 12):
+        if tier == 'quick' and h not in dags4 and h % 8 != seed % 8:
+            continue        # quick: all 4-node DAGs, every 8th cyclic graph (rotating with the seed)
         for r in ((1, 2, 3, 4) if tier == 'thorough' else (1, 2)):
             gs.append({'n': 4, 'loops': False, 'h': h, 'real': (1 << r) - 1})
+    # the expanded and the extension form once more through a default-mode Wordnet() (all lexicons queried, all
+    # lexicons expand lexicons, a synset sees its own lexicon's extension family)
+    for n in (2, 3):
+        for h in range(1 << (n * n)):
+            for r in range(1, n + 1):
+                gs.append({'n': n, 'loops': True, 'h': h, 'real': (1 << r) - 1, 'mode': 'default'})
+    if tier == 'thorough':
+        for h in range(1 << 12):
+            for r in (1, 2, 3):
+                gs.append({'n': 4, 'loops': False, 'h': h, 'real': (1 << r) - 1, 'mode': 'default'})
     # expanded mode with the stored synsets split over two queried lexicons (node 0 in one, node 1 - and
     # node 2 where it is stored - in the other): a placeholder reached from either lexicon is one node
     for h in range(1 << 9):
@@ -456,6 +478,7 @@ def space(tier, seed):
                 gs.append({'n': 4, 'loops': True, 'h': h})
         for h in dag_masks(5):
             gs.append({'n': 5, 'loops': False, 'h': h})
+    gs += [dict(g, mode='default') for g in gs if 'ext' in g and g['scope'] == 'both' and (g['n'] == 3 or tier == 'thorough')]
     return gs
 
 
@@ -464,7 +487,7 @@ def run(tier, seed, jobs=None):
     cases = [{'graphs': gs[i:i + BATCH]} for i in range(0, len(gs), BATCH)]
     rule = ('every labelled hypernym digraph: n<=3 with self-loops; edge typings '
             'hypernym/instance_hypernym; hyponym-declaration modes; pos colourings; all '
-            'loop-free digraphs on 4 nodes; the n<=3 graphs (r=1..n real nodes) and the 4-node loop-free graphs (r=1,2; thorough r=1..4) again in expanded mode with *INFERRED* placeholders' +
+            'loop-free digraphs on 4 nodes; the n<=3 graphs (r=1..n real nodes) and the 4-node DAGs + every 8th cyclic loop-free 4-node graph (r=1,2; thorough: all, r=1..4) again in expanded mode, split over two queried lexicons, through a default-mode Wordnet, and with part of the graph in a lexicon extension with *INFERRED* placeholders' +
             ('; all digraphs with self-loops on 4 nodes; all DAGs on 5 nodes' if tier == 'thorough' else '') +
             '. Each graph: every node, ordered pair, simulate_root value, every taxonomy function '
             'vs the plain-Python reference. Non-trivial = graph has >=1 edge; distinct = distinct '
